@@ -77,6 +77,10 @@ func runSolver(ctx context.Context, s solverSpec, file string, timeoutS int) sol
 // Solve races the solvers on one obligation. In confirm mode every solver's
 // verdict is collected (thorough tier: two solver families must agree).
 func (o *Obligation) Solve(dir string, timeoutS int, confirm bool) {
+	if o.Cover && timeoutS > 3 {
+		// vacuity guards: "sat" is usually found at once; an unknown is tolerated
+		timeoutS = 3
+	}
 	q := o.Query(false)
 	qc := o.Query(true)
 	o.SMTSize = len(q)
